@@ -25,7 +25,8 @@ sys.path.insert(0, os.path.dirname(os.path.dirname(os.path.abspath(__file__))))
 from simkit import driver  # noqa: E402
 from simkit.driver import bump, new_result, shrink_list  # noqa: E402
 from simkit.rng import Rng, digest  # noqa: E402
-from simkit.threads import SimLock, SimThreads, restore_locks, simulate_locks  # noqa: E402
+from simkit.threads import (SimCondition, SimLock, SimRLock, SimThreads, restore_locks,  # noqa: E402
+                            simulate_locks)
 
 import liquid.utils.lru_cache as lru_mod  # noqa: E402
 
@@ -542,6 +543,9 @@ class C24:
         bump(st, "conc.granularity." + sc.get("granularity", "line"))
         saved = lru_mod.Lock
         lru_mod.Lock = SimLock
+        saved_other = {n: getattr(lru_mod, n) for n in ("RLock", "Condition") if hasattr(lru_mod, n)}
+        for n in saved_other:      # primitives a future version may import: simulated likewise
+            setattr(lru_mod, n, {"RLock": SimRLock, "Condition": SimCondition}[n])
         SimLock.sim = None
         try:
             cache = lru_mod.ThreadSafeLRUCache(cap)
@@ -642,6 +646,8 @@ class C24:
             del keep[:]
         finally:
             lru_mod.Lock = saved
+            for n, v in saved_other.items():
+                setattr(lru_mod, n, v)
             SimLock.sim = None
             HK.hook = None
             try:
